@@ -46,7 +46,7 @@ def module_run(name, p, par=False, init_rels=None):
 pub mod {name} {{
    use ascent::*;
    use ascent::aggregators::*;
-   use ascent::lattice::{{Dual, set::Set}};
+   use ascent::lattice::{{Dual, set::Set, bounded_set::BoundedSet}};
    use crate::common::*;
    #[derive(Default)]
    pub struct Inst {{
